@@ -8,8 +8,11 @@ pub mod c07;
 pub mod c08;
 pub mod c09;
 pub mod c10;
+pub mod c11;
+pub mod c12;
 pub mod c13;
 pub mod c14;
+pub mod c18;
 
 use crate::engine::Report;
 
@@ -33,8 +36,11 @@ pub fn run(id: &str, rep: &mut Report) -> bool {
         "C08" => c08::run(rep),
         "C09" => c09::run(rep),
         "C10" => c10::run(rep),
+        "C11" => c11::run(rep),
+        "C12" => c12::run(rep),
         "C13" => c13::run(rep),
         "C14" => c14::run(rep),
+        "C18" => c18::run(rep),
         _ => return false,
     }
     true
